@@ -455,6 +455,14 @@ def run(ctx, chk):
              "(each block goes to the installed free exactly once, not zero times; shared with C01.drain)")
     from props.c01 import check_load_paths
     check_load_paths(chk, prog, eff, R_window=None, R_drain="C13.drain", R_outcome=None)
+    chk.rule("C13.balance", "every owned reference is released, handed off or returned exactly once on every path, failure arms included; a raw "
+             "free of an item is legal only while it owns no other block: a reference that is dropped, or an item that is freed around its "
+             "release routine, keeps its blocks from ever reaching the installed free (shared with C06.release)")
+    import ownership as _Ob
+    from props.c06 import check_balance
+    _cb = _Ob.PathCache(prog, eff)
+    _Nb = _Ob.Nullness(prog, eff, _cb)
+    check_balance(chk, "C13.balance", prog, eff, _cb, _Nb, _Ob.Balance(prog, eff, _cb, _Nb), tables.constructors(prog, eff), floor=60)
     chk.exhaustive = True
 
 
